@@ -5,6 +5,7 @@ mod checks_c05;
 mod checks_c06;
 mod checks_c12;
 mod checks_c17;
+mod checks_c19;
 mod checks_e1;
 mod checks_http;
 mod crash;
@@ -59,6 +60,7 @@ fn engine_shard(id: &str, tier: &str, seed: u64, replay: Option<&serde_json::Val
         "C05" => checks_c05::shard_run(tier, seed, replay_case, shard),
         "C06" => checks_c06::shard_run(tier, seed, replay_case, shard),
         "C17" => checks_c17::shard_run(tier, seed, replay_case, shard),
+        "C19" => checks_c19::shard_run(tier, seed, replay_case, shard),
         "C15" | "C20" => checks_http::shard_run_grammar(id, tier, seed, replay_case, shard),
         "C16" => checks_http::shard_run_c16(tier, seed, replay_case, shard),
         "C12" => {
@@ -90,6 +92,7 @@ fn engine_finalize(id: &str, tier: &str, seed: u64, out: ShardOut, is_replay: bo
         "C05" => checks_c05::finalize(out, is_replay),
         "C06" => checks_c06::finalize(out, is_replay),
         "C17" => checks_c17::finalize(out, is_replay),
+        "C19" => checks_c19::finalize(out, is_replay),
         "C15" | "C20" => checks_http::finalize_grammar(id, tier, out, is_replay),
         "C16" => checks_http::finalize_c16(out, is_replay),
         "C12" => {
@@ -190,6 +193,18 @@ fn main() {
     let id = args[1].clone();
     if id == "bench" {
         bench();
+        return;
+    }
+    if id == "gen-fixtures" {
+        let out = std::path::PathBuf::from(args.get(2).cloned().unwrap_or_else(|| usage()));
+        match checks_c19::gen_fixtures(&out) {
+            Ok(()) => println!("fixtures written to {}", out.display()),
+            Err(e) => {
+                eprintln!("gen-fixtures failed: {e:#}");
+                std::process::exit(1);
+            }
+        }
+        scratch::cleanup_base();
         return;
     }
     let mut tier = std::env::var("VERIF_TIER").unwrap_or_else(|_| "quick".into());
